@@ -218,7 +218,13 @@ type c17Cfg struct {
 
 func (c *c17Cfg) handler(down mocrelay.Handler) mocrelay.Handler {
 	if c.Phase == "nip11" || c.FromNIP11 {
-		return mocrelay.BuildMiddlewareFromNIP11(c.Doc)(down)
+		// a middleware is a value that may wrap any number of handlers: in two cases out of
+		// three the chain has already been applied to one or two other handlers before
+		mw := mocrelay.BuildMiddlewareFromNIP11(c.Doc)
+		for k := c.Mask % 3; k > 0; k-- {
+			mw(mocrelay.NewDefaultHandler())
+		}
+		return mw(down)
 	}
 	h := down
 	for i := len(c.MWs) - 1; i >= 0; i-- {
